@@ -54,9 +54,15 @@ class E1Sink:
         self.other = {}
         self.extra = extra
         self.stat_tot = {}
+        self.by_class = {}
 
     def __call__(self, job, res, depth):
         rep = self.rep
+        cls = "%s/%s" % (job.get("geo"), job.get("mode", "det"))
+        c = self.by_class.setdefault(cls, [0, 0])
+        c[0] += 1
+        if res["exc"] is None or res.get("injected") or job.get("expect") == "reject":
+            c[1] += 1
         self.outcomes.add(res["outcome"])
         prev = None
         for pr in res["probes"]:
@@ -109,5 +115,8 @@ class E1Sink:
 
 
 def vacuity_floor(rep, sink, floor):
+    dead = sorted(k for k, (n, ok) in sink.by_class.items() if n >= 4 and ok == 0)
+    if dead and not rep.viol:
+        raise HarnessError("no execution of the class(es) %s could be judged (all aborted): %s" % (dead, rep.aborted))
     if sink.judged < floor:
         raise HarnessError("vacuous run: only %d non-aborted executions (floor %d); aborted=%s" % (sink.judged, floor, rep.aborted))
